@@ -305,11 +305,13 @@ def np_clip(m, args, kw, node):
     return r
 
 
-@ext("numpy.isnan", "A-REAL: reals are never NaN")
+@ext("numpy.isnan", "A-REAL: reals are never NaN unless declared NanRealT")
 def np_isnan(m, args, kw, node):
     a = m.force(args[0], node)
-    if isinstance(a, SObj) and a.tag == "nan":
-        return True
+    if isinstance(a, NanReal):
+        return a.isnan if isinstance(a.isnan, bool) else m.mk(a.isnan, "bool")
+    if a is None:
+        raise PyRaise("TypeError", node)
     return False
 
 
@@ -417,3 +419,19 @@ def rng_method(m, o, name, args, kw, node):
         r = m.fresh_scalar("real", "rng.normal")
         return r
     raise Unsupported("RandomState.%s has no contract" % name, node)
+
+
+# module-level constants of libraries.  numpy >= 2 (installed: 2.x) has no NAN / NaN / Inf aliases:
+# touching them raises AttributeError, which is modelled faithfully.
+CONSTANTS = {
+    "numpy.nan": lambda m: NanReal(True, Fraction(0)),
+    "math.nan": lambda m: NanReal(True, Fraction(0)),
+    "numpy.pi": lambda m: Fraction("3.141592653589793"),
+}
+REMOVED_IN_NUMPY2 = {"numpy.NAN", "numpy.NaN", "numpy.Inf", "numpy.infty", "numpy.float_", "numpy.PINF", "numpy.NINF"}
+
+
+@ext("operator.itemgetter", "itemgetter(i)(x) == x[i]")
+def op_itemgetter(m, args, kw, node):
+    idx = args[0]
+    return NativeFn("itemgetter", lambda mach, a, k, n, idx=idx: mach.getitem(a[0], idx, n))
